@@ -180,3 +180,61 @@ func VerifH_ParameterEscapes() {
 	verifrt.Assert("C17.doc.read-back", got == value)
 	verifrt.Reach("C17.doc.escaped-backslash", len(value) < n)
 }
+
+// VerifH_ParameterPath (C17, the path clause): a path "/" + v, v being up to N
+// bytes, written bare or in double quotes (with '"' and '\' escaped) as the
+// parameter of GET (host 0) or of URL with a path-less GET inside (host 1), is -
+// whenever the document is accepted - the path of the one interaction the catalog
+// holds, byte for byte. Which paths are acceptable is another rule (path syntax);
+// it is not asserted here.
+//
+//	bare:   N bytes over {a b . - /}, not starting with '/' (a bare "//" opens an annotation)
+//	quoted: N bytes over {a blank # / " \}
+func VerifH_ParameterPath() {
+	n := verifrt.Choice("n", verifrt.Bound("N")) + 1
+	v := verifrt.String("v", n)
+	quoted := verifrt.Choice("quoted", 2) == 1
+	for i := 0; i < n; i++ {
+		c := v[i]
+		if quoted {
+			verifrt.Assume(c == 'a' || c == ' ' || c == '#' || c == '/' || c == '"' || c == '\\')
+		} else {
+			verifrt.Assume(c == 'a' || c == 'b' || c == '.' || c == '-' || c == '/')
+		}
+	}
+	if !quoted {
+		verifrt.Assume(v[0] != '/')
+	}
+	want := "/" + v
+	form := want
+	if quoted {
+		form = refEscapeParam(want)
+	}
+	host := verifrt.Choice("host", 2)
+	var text string
+	if host == 0 {
+		text = "JSIGHT 0.3\nGET " + form + "\n"
+	} else {
+		text = "JSIGHT 0.3\nURL " + form + "\nGET\n"
+	}
+	verifrt.Note("doc", text)
+	core, je := verifRun(text)
+	if je != nil {
+		verifrt.Note("diagnostic", je.Msg)
+		verifrt.Reach("C17.path.rejected", true)
+		return
+	}
+	got := "<absent>"
+	count := 0
+	core.catalog.Interactions.EachSafe(func(_ catalog.InteractionID, x catalog.Interaction) {
+		if h, ok := x.(*catalog.HTTPInteraction); ok {
+			got = string(h.PathVal)
+			count++
+		}
+	})
+	verifrt.Note("got", got)
+	verifrt.Assert("C17.path.one-interaction", count == 1)
+	verifrt.Assert("C17.path.read-back", got == want)
+	verifrt.Reach("C17.path.quoted", quoted)
+	verifrt.Reach("C17.path.bare", !quoted)
+}
